@@ -161,6 +161,53 @@ def run_decompile_case(case: dict) -> dict:
         shutil.rmtree(d, ignore_errors=True)
 
 
+def run_lookup_case(case: dict) -> dict:
+    """compile command with --lookup: the source lies in a sub-directory, the command runs in another directory, the lookup paths are
+    relative to the working directory or absolute (docs/cli_api_usage.rst); the result must be the document of the API's compile"""
+    d = tempfile.mkdtemp(prefix="vf-cli-", dir=os.environ.get("VERIF_SCRATCH_BASE") or tempfile.gettempdir())
+    try:
+        for rel, text in case["files"].items():
+            fp = os.path.join(d, rel)
+            os.makedirs(os.path.dirname(fp), exist_ok=True)
+            with open(fp, "w", encoding="utf-8") as fh:
+                fh.write(text)
+        with open(os.path.join(d, "settings.json"), "w") as fh:
+            json.dump({"settings": SETTINGS}, fh)
+        look = [os.path.join(d, p) if case["absolute"] else p for p in case["lookup"]]
+        rc, out, err = cli("explorerscript.cli.compile", [case["main"], "--settings", "settings.json", "--lookup"] + look, d)
+        src = case["files"][case["main"]]
+        api = drive.compile_text(src, os.path.join(d, case["main"]), [os.path.join(d, p) for p in case["lookup"]])
+        rec = {"kind": "compile", "src": "// lookup " + " ".join(case["lookup"]) + ("  (absolute)" if case["absolute"] else "  (relative to cwd)") + "\n" + src,
+               "compileExit": rc, "apiStatus": api["status"], "inputOk": True, "why": "", "docParsed": False, "hasSettings": False, "doc": [],
+               "api": api["ops"], "apiKinds": [i["kind"] for i in api["infos"]], "decompileExit": 0, "stderr": err[-300:], "text": "", "behaviour": None}
+        try:
+            doc = json.loads(out)
+            rec["docParsed"] = isinstance(doc, dict)
+        except Exception:
+            doc = None
+        if rec["docParsed"] and api["status"] == "ok":
+            rec["hasSettings"] = "settings" in doc and "routines" in doc
+            rec["doc"] = doc_view(doc)
+            rec["kind"] = "compile-only"
+        return rec
+    finally:
+        shutil.rmtree(d, ignore_errors=True)
+
+
+def lookup_cases() -> list[dict]:
+    lib = "macro lib($p) { l($p); if ($p == 1) { return; } m(); }\n"
+    other = "macro other() { o(); }\n"
+    main = 'import "common/lib.exps";\ndef 0 { a(); ~lib(2); if ($V == 1) { b(); } end; }\n'
+    main2 = 'import "common/lib.exps";\nimport "more/other.exps";\ndef 0 { ~other(); ~lib(1); end; }\n'
+    out = []
+    for absolute in (False, True):
+        out.append({"files": {"src/scripts/in.exps": main, "macros/common/lib.exps": lib}, "main": "src/scripts/in.exps", "lookup": ["macros"], "absolute": absolute})
+        out.append({"files": {"in.exps": main, "macros/common/lib.exps": lib}, "main": "in.exps", "lookup": ["macros"], "absolute": absolute})
+        out.append({"files": {"a/b/in.exps": main2, "m1/common/lib.exps": lib, "m2/more/other.exps": other, "m2/common/lib.exps": "macro lib($p) { wrong($p); }\n"},
+                    "main": "a/b/in.exps", "lookup": ["m1", "m2"], "absolute": absolute})
+    return out
+
+
 def invalid_invocations() -> tuple[list[dict], list[dict]]:
     """runs that must NOT exit with status 0: the settings document lacks a documented key, is no JSON, the input file is missing, the SSB
     document lacks settings / routines or names an unknown routine or argument type"""
@@ -230,6 +277,7 @@ def main() -> int:
              "def 0 for actor 3 { a(); hold; }\ndef 1 for object OBJ_X { while ($V == 1) { b(); } return; }", "def 0 { break; }", "def 0 { x(", "def 0 { jump @nowhere; }", ""]
     bad_c, bad_d = invalid_invocations()
     crecs = pmap(run_compile_case, [{"src": s, "with_source_map": k % 3 == 1} for k, s in enumerate(srcs)] + bad_c, limit=120.0, chunk=2)
+    crecs += pmap(run_lookup_case, lookup_cases(), limit=120.0, chunk=1)
     drecs = pmap(run_decompile_case, documented_docs() + bad_d, limit=120.0, chunk=2)
     recs = crecs + drecs
     for r in recs:
